@@ -32,12 +32,13 @@ package lock
 //@   csensures[woken_only_if_first] old(len(q.callers)) > 0 ==> !closed(c.ready)
 
 //@ func (*queue).remove(q, id) (found)
-//@   property C14
+//@   property C14 C28
 //@   nopanic
 //@   modifies q.callers, arrays(q.callers), chans()
 //@   loop 0 invariant[scanned] forall k in 0..rangeindex+1: q.callers[k].id != id
 //@   csensures[absent_id_changes_nothing] !found ==> len(q.callers) == old(len(q.callers)) && forall i in 0..len(q.callers): q.callers[i] == old(q.callers[i])
 //@   csensures[absent_means_absent] !found ==> forall i in 0..len(q.callers): q.callers[i].id != id
+//@   csensures[C28:leaver_is_dismissed] found ==> exists k in 0..old(len(q.callers)): old(q.callers[k].id) == id && closed(old(q.callers[k]).done)
 //@   csensures[removes_one_keeps_order] found ==> len(q.callers) == old(len(q.callers)) - 1 && exists k in 0..old(len(q.callers)): old(q.callers[k].id) == id && closed(old(q.callers[k]).done) && (forall i in 0..k: q.callers[i] == old(q.callers[i])) && (forall i in k..len(q.callers): q.callers[i] == old(q.callers[i+1]))
 
 // Interface-level contract of the business lock as used by the gateway: the ghost variables
@@ -60,13 +61,17 @@ package lock
 // The TTL watchdog started for a granted caller: it removes only its own caller's id, only when
 // its timer (armed with the caller's ttl) fires, and it does so whenever the timer fires.
 //@ func (*lock).Lock$1()
-//@   property C14
+//@   property C14 C28
 //@   modifies *
 //@   ensures[timer_uses_ttl] ghost("timer_d") == ttl
 //@   ensures[removes_own_id] calls("queue.remove") > old(calls("queue.remove")) ==> calledwith("queue.remove", 1, lockID)
 //@   ensures[removes_only_on_expiry] calls("queue.remove") > old(calls("queue.remove")) ==> ghost("select_chan") == ghost("timer_chan")
 //@   ensures[expiry_releases] ghost("select_chan") == ghost("timer_chan") ==> calls("queue.remove") == old(calls("queue.remove")) + 1
 //@   ensures[dismissed_otherwise] ghost("select_chan") != ghost("timer_chan") ==> ghost("select_chan") == refid(c.done) && calls("queue.remove") == old(calls("queue.remove"))
+// C28: the watchdog (goroutine, timer, reference to the caller) lives exactly until its caller leaves the
+// queue: it ends only by expiry -- removing the caller itself -- or by the caller's dismissal.
+//@   ensures[C28:watchdog_ends_only_with_its_caller] ghost("select_chan") == ghost("timer_chan") || ghost("select_chan") == refid(c.done)
+//@   ensures[C28:expiry_removes_the_caller] ghost("select_chan") == ghost("timer_chan") ==> calls("queue.remove") == old(calls("queue.remove")) + 1 && calledwith("queue.remove", 1, lockID)
 
 // Unlock: removes exactly the given id from the key's queue; an unknown key or id is an error
 // (a stale or foreign lock id never releases someone else's lock: see remove's contract).
@@ -74,6 +79,7 @@ package lock
 //@   property C14 C28
 //@   modifies *
 //@   cover[C28:idle_key_state_can_be_released] err == nil && calls("Map.Delete") + calls("Map.CompareAndDelete") + calls("Map.LoadAndDelete") > old(calls("Map.Delete") + calls("Map.CompareAndDelete") + calls("Map.LoadAndDelete"))
+//@   ensures[C28:unlock_never_adds_key_state] calls("Map.LoadOrStore") + calls("Map.Store") + calls("Map.Swap") + calls("Map.CompareAndSwap") == old(calls("Map.LoadOrStore") + calls("Map.Store") + calls("Map.Swap") + calls("Map.CompareAndSwap"))
 //@   ensures[removes_given_id] err == nil ==> calls("queue.remove") == old(calls("queue.remove")) + 1 && calledwith("queue.remove", 1, lockID) && lastretb("queue.remove")
 //@   ensures[not_found_is_error] calls("queue.remove") > old(calls("queue.remove")) && !lastretb("queue.remove") ==> err != nil
 
